@@ -17,6 +17,10 @@ HARNESS = {"ivf": "rd_ivf", "ogg": "rd_ogg", "opushead": "rd_ogg", "opustags": "
            "h264": "rd_h264", "h265": "rd_h265", "rtpdump": "rd_rtpdump"}
 MODES = ["full", "byte", "eofdata"]
 BATCH = 1000
+# per-vector deadline inside a batch process (typical vector: microseconds, slowest seen: 0.1 s) and, six times
+# longer, when a vector that exceeded it is re-run alone
+HANG_BATCH_S = int(os.environ.get("VERIF_CALL_DEADLINE_S") or 20)
+HANG_CONFIRM_S = 6 * HANG_BATCH_S
 MAX_CRASHES = 3000          # per run; beyond that the run is abandoned (no verdict)
 OOM_RE = re.compile(r"out of memory|cannot allocate memory|runtime: cannot allocate")
 FATAL_RE = re.compile(r"^(fatal error: .*|panic: .*|SIG[A-Z]+: .*)$", re.M)
@@ -51,16 +55,18 @@ class Harness:
         self.lines = {}          # id -> recorded (or, for a crash, reconstructed) run line
         self.children = 0
         self.crashes = []        # (id, kind, msg, confirmed alone: True / False / None = not re-run)
+        self.hangs = []          # (id, sig, hung again alone: True / False / None = not re-run)
         self.limit = None
         self.dir = os.path.join(ctx.work, "h-%s-%d" % (name, shard))
         os.makedirs(self.dir, exist_ok=True)
 
-    def _child(self, vecs):
+    def _child(self, vecs, env=None):
         self.children += 1
         tag = "%s-%d" % (self.name, self.children)
         infile = vlib.write_json(os.path.join(self.dir, tag + ".in.json"), {"bases": self.bases, "vecs": vecs})
         outfile = os.path.join(self.dir, tag + ".ndjson")
-        rc, out = vlib.go_run(self.ctx, self.binary, "TestVerifReaders", infile, outfile, timeout=600, allow_fail=True)
+        rc, out = vlib.go_run(self.ctx, self.binary, "TestVerifReaders", infile, outfile, env=env, timeout=900,
+                              allow_fail=True)
         lines = []
         if os.path.exists(outfile):
             for ln in open(outfile, errors="replace").read().splitlines():
@@ -108,12 +114,32 @@ class Harness:
         self.crashes.append((v["id"], again[0], again[1], True))
         return self._reconstruct(v, again[0], again[1], [ln for ln in lines if ln.get("ev") == "mark"])
 
+    def _hung(self, line, vs):
+        """A call exceeded the in-batch deadline. On a loaded machine a process can be starved for seconds, so
+        the vector is re-run alone with a six times longer deadline; only a hang that shows again is kept
+        (after two confirmed hangs of the same signature further ones are taken as they are)."""
+        confirmed = sum(1 for h in self.hangs if h[1] == line["sig"] and h[2])
+        if confirmed >= 2 or not vs:
+            self.hangs.append((line["t"], line["sig"], None))
+            return
+        rc, out, lines = self._child(vs, env={"VERIF_CALL_DEADLINE_S": str(HANG_CONFIRM_S)})
+        runs = [ln for ln in lines if ln.get("ev") == "run"]
+        if not runs:
+            raise vlib.NoVerdict("%s: re-running hung vector %d alone gave no run line (rc=%s):\n%s" %
+                                 (self.name, line["t"], rc, out[-1500:]))
+        again = runs[0].get("end") == "hang"
+        self.hangs.append((line["t"], line["sig"], again))
+        if not again:
+            self.lines[line["t"]] = runs[0]
+            self.ctx.notes.append("%s: vector %d exceeded the %d s deadline in its batch but returned when re-run alone" %
+                                  (self.name, line["t"], HANG_BATCH_S))
+
     def run(self):
         todo = list(self.vecs)
         while todo:
             batch, todo = todo[:BATCH], todo[BATCH:]
             while batch:
-                rc, out, lines = self._child(batch)
+                rc, out, lines = self._child(batch, env={"VERIF_CALL_DEADLINE_S": str(HANG_BATCH_S)})
                 got = {ln["t"]: ln for ln in lines if ln.get("ev") == "run"}
                 self.lines.update(got)
                 rest = [v for v in batch if v["id"] not in got]
@@ -122,6 +148,7 @@ class Harness:
                         raise vlib.NoVerdict("%s: driver ended normally without %d vectors" % (self.name, len(rest)))
                     break
                 if rc == 3 and lines and lines[-1].get("end") == "hang":     # the driver reported a hang and left
+                    self._hung(lines[-1], [v for v in batch if v["id"] == lines[-1]["t"]])
                     batch = rest
                     continue
                 death = classify_death(rc, out)
@@ -232,6 +259,9 @@ def run(ctx):
     ctx.cov["process_deaths"] = len(crashes)
     ctx.cov["process_deaths_confirmed_alone"] = sum(1 for c in crashes if c[3] is True)
     ctx.cov["process_deaths_not_reproduced_alone"] = sum(1 for c in crashes if c[3] is False)
+    hangs = [x for h in hs for x in h.hangs]
+    ctx.cov["deadline_expiries"] = len(hangs)
+    ctx.cov["deadline_expiries_not_reproduced_alone"] = sum(1 for x in hangs if x[2] is False)
     ctx.log("replayed %d runs in %d child processes; %d process deaths (%d re-run alone: %d died again)" %
             (len(vecs), ctx.cov["child_processes"], len(crashes), sum(1 for c in crashes if c[3] is not None),
              ctx.cov["process_deaths_confirmed_alone"]))
@@ -293,7 +323,8 @@ def run(ctx):
         "value%s; not arbitrary bytes" % ("" if quick else ", seeded samples of double mutations and mutation + truncation"),
         "each reader process limits its own address space (RLIMIT_AS) to what it uses at start + 1 GiB; inputs are below 1 KiB, "
         "so the runtime's fatal out-of-memory error means a length field drove an allocation of about 1 GiB or more",
-        "a call that does not return within 10 s is a hang (typical call: microseconds)",
+        "a vector whose calls do not return within %d s in its batch process and again within %d s in a process of "
+        "its own is a hang (typical vector: microseconds; slowest seen: 0.1 s)" % (HANG_BATCH_S, HANG_CONFIRM_S),
         "consumed-byte counter = bytes the reader took from the io.Reader minus bytes still unread in its own buffer "
         "(bufio.Reader of the rtpdump reader, readBuffer of the Annex-B readers)",
         "io.Reader delivery modes: full, one byte per Read, io.EOF returned together with the last bytes",
